@@ -1,6 +1,7 @@
 package props
 
 import (
+	"bufio"
 	"bytes"
 	"encoding/binary"
 	"fmt"
@@ -22,13 +23,13 @@ func init() {
 		Level: "fault_enumeration",
 		Rule: "crash points: every proper prefix (every byte offset) of seeded spec-valid files, each read and compared with the file's ground truth (error, or tracks that are event-for-event prefixes); " +
 			"plus grammar-mutated files (bit flips, byte insert/delete/replace, length and VLQ tampering up to 2^32-1, chunk splicing, ntrks tampering), random strings (half with a valid header) and a fixed targeted list. " +
-			"Every read runs under recover() with the allocation of the call measured (runtime.MemStats.TotalAlloc in a single-goroutine worker process). distinct = distinct input byte strings (content hash); non-trivial = input of at least 14 bytes starting with a valid header chunk, or any truncation of a valid file",
+			"The source kind rotates (bytes.Reader; sources that offer nothing but Read: plain wrapper, small bufio, io.MultiReader). Every read runs under recover() with the allocation of the call measured (runtime.MemStats.TotalAlloc in a single-goroutine worker process). distinct = distinct input byte strings (content hash); non-trivial = input of at least 14 bytes starting with a valid header chunk, or any truncation of a valid file",
 		Assumptions: []string{
 			"allocation bound: 1 MiB + 256 B x declared track count + 2048 B x input length (calibration: densest valid input costs 267 B per input byte, a header declaring 65535 tracks costs 8 MB; a 31-byte file declaring a 0x0FFFFFFF-byte text cost 537 MB before the repair)",
 			"termination is observed by the per-run watchdog (a hang makes the run inconclusive, with the case id in the worker's current-case file)",
 			"the prefix relation is event-for-event on (delta, canonical message bytes); a missing end-of-track at the end of the last track is a legitimate prefix",
 		},
-		Require: []string{"many_chunks_small_stack_reads", "shape_additivity_checks", "reads_after_failed_read", "sequence_failed_reads", "truncations", "truncation_results_ok_value", "truncation_results_error", "mutants", "random_strings", "targeted", "alloc_measurements", "reads_with_log", "big_payload_truncations", "proportionality_checks", "concurrent_truncation_files"},
+		Require: []string{"many_chunks_small_stack_reads", "shape_additivity_checks", "reads_after_failed_read", "sequence_failed_reads", "truncations", "truncation_results_ok_value", "truncation_results_error", "mutants", "random_strings", "targeted", "alloc_measurements", "reads_with_log", "big_payload_truncations", "proportionality_checks", "concurrent_truncation_files", "reads_from_sources_without_len_or_seek"},
 		UsesCur: true,
 		Run:     runC05,
 	})
@@ -42,8 +43,41 @@ func (l *nullLogger) Printf(format string, vals ...interface{}) {
 }
 
 type c05Run struct {
-	c  *mon.Ctx
-	ms runtime.MemStats
+	c    *mon.Ctx
+	ms   runtime.MemStats
+	n    int
+	kind int // > 0: force this source kind for the next reads
+}
+
+// opaqueReader hides everything but Read (no Len, Size, Seek, ReadAt, WriteTo): the library cannot ask the source how
+// much is left, as with a pipe, a socket, a decompressor or an HTTP body
+type opaqueReader struct{ r io.Reader }
+
+func (o opaqueReader) Read(p []byte) (int, error) { return o.r.Read(p) }
+
+const c05Kinds = 4
+
+// source wraps the input in one of several kinds of io.Reader; what is read must not depend on it and the
+// allocation bound holds for every kind
+func (k *c05Run) source(b []byte) io.Reader {
+	kind := k.kind
+	if kind == 0 {
+		k.n++
+		kind = 1 + k.n%c05Kinds
+	}
+	switch kind {
+	case 2:
+		k.c.Count("reads_from_sources_without_len_or_seek", 1)
+		return opaqueReader{bytes.NewReader(b)}
+	case 3:
+		k.c.Count("reads_from_sources_without_len_or_seek", 1)
+		return bufio.NewReaderSize(opaqueReader{bytes.NewReader(b)}, 64)
+	case 4:
+		k.c.Count("reads_from_sources_without_len_or_seek", 1)
+		h := len(b) / 2
+		return io.MultiReader(bytes.NewReader(b[:h]), opaqueReader{bytes.NewReader(b[h:])})
+	}
+	return bytes.NewReader(b)
 }
 
 // read runs smf.ReadFrom on b under recover() and measures its allocation.
@@ -54,7 +88,8 @@ func (k *c05Run) read(b []byte, class string, in any, measure bool) (s *smf.SMF,
 		runtime.ReadMemStats(&k.ms)
 		before = k.ms.TotalAlloc
 	}
-	panicked = c.Guard("panic:"+class, in, func() { s, err = smf.ReadFrom(bytes.NewReader(b)) })
+	src := k.source(b)
+	panicked = c.Guard("panic:"+class, in, func() { s, err = smf.ReadFrom(src) })
 	if measure {
 		runtime.ReadMemStats(&k.ms)
 		alloc := k.ms.TotalAlloc - before
@@ -662,7 +697,13 @@ func runC05(c *mon.Ctx) {
 		b := tg[i].b
 		c.CurPayload(b)
 		in := map[string]any{"label": tg[i].label, "bytes": mon.Hex(b)}
-		k.read(b, "targeted", in, true)
+		for kind := 1; kind <= c05Kinds; kind++ {
+			k.kind = kind
+			in["source kind"] = kind
+			k.read(b, "targeted", in, true)
+		}
+		k.kind = 0
+		delete(in, "source kind")
 		lg := &nullLogger{}
 		c.Guard("panic:targeted+log", in, func() { smf.ReadFrom(bytes.NewReader(b), smf.Log(lg)) })
 		c.Count("reads_with_log", 1)
